@@ -1312,6 +1312,8 @@ def iterate(ex, v, where=None):
         return list(v)
     if v.__class__.__name__ == 'CountVal':
         return iter_count(ex, v, where)
+    if v.__class__.__name__ == 'EnumVal':
+        return [STuple((binop(ex, ast.Add(), v.start, i), x)) for i, x in enumerate(iterate(ex, v.seq, where))]
     if isinstance(v, IterVal):
         rest = v.items[v.pos:]
         v.pos = len(v.items)
